@@ -14,6 +14,7 @@ mod c07;
 mod c13;
 mod c17;
 mod c18;
+mod c19;
 mod c20;
 mod mocset;
 mod st;
@@ -48,6 +49,7 @@ fn main() {
     "C13" => c13::run(&mut sink, &mut rng, thorough),
     "C17" => c17::run(&mut sink, &mut rng, thorough),
     "C18" => c18::run(&mut sink, &mut rng, thorough),
+    "C19" => c19::run(&mut sink, &mut rng, thorough, &dir.join("work")),
     "C20" => c20::run(&mut sink, &mut rng, thorough),
     "C08" => st::c08(&mut sink, &mut rng, thorough),
     "C09" => st::c09(&mut sink, &mut rng, thorough),
